@@ -306,6 +306,28 @@ def documents_check(chk, want_identity, n=None, drv=None):
                     chk.fail(sig, {'doc': i, 'seed': chk.seed, 'rendering': name}, str(X.first_diff(X.sort_attrs(body[0]), exp)) if body else 'no body')
 
 
+def tableless_kwargs_check(chk):
+    """elements without an attribute table (outside the ODF vocabulary, or an ODF element whose allowed_attributes row is
+    missing) constructed with keyword attributes: the call may raise AttributeError, but whatever is built must serialise to
+    well-formed XML (the constructor used to store the keyword under a key that toXml() cannot write)"""
+    from odf import grammar
+    from odf.element import Element
+    qnames = [(u'urn:example:foreign', u'thing'), (u'', u'plain')]
+    qnames += sorted(q for q in grammar.allowed_children if q not in grammar.allowed_attributes)[:40]
+    for q in qnames:
+        for kw in (u'numformat', u'foo', u'a', u'xy', u'stylename'):
+            chk.case(('tableless', q, kw)); chk.count('tableless_kwargs')
+            try:
+                e = Element(qname=q, check_grammar=False, **{str(kw): u'v&"'})
+            except AttributeError:
+                chk.count('tableless_kwargs_refused'); continue
+            except Exception as ex:
+                chk.fail('tableless-kwargs-raises:' + type(ex).__name__, {'qname': list(q), 'keyword': kw}, repr(ex)); continue
+            ok, res = wellformed(PROLOGUE + X.to_xml(e))
+            if not ok:
+                chk.fail('not-wellformed:keyword-attribute', {'qname': list(q), 'keyword': kw}, '%s: %r' % (res, X.to_xml(e)[:200]))
+
+
 # ------------------------------------------------------------------ namespace histories (fresh interpreters)
 HIST_NS = [u'urn:h:one', u'urn:h:two', u'', u'http://www.w3.org/1998/Math/MathML', u'urn:oasis:names:tc:opendocument:xmlns:text:1.0',
            u'urn:h:with"quote', u'urn:h:three', u'http://www.w3.org/XML/1998/namespace', u'urn:h:amp&lt']
